@@ -153,3 +153,15 @@ Proof.
   intros Hs Hk Hc. cbv zeta. rewrite !per_coord_nth by exact Hk.
   apply ci_order; [|exact Hc]. unfold coordchain. destruct samples; [congruence | discriminate].
 Qed.
+
+(* ---------------- the forms used for long chains are the definitions ---------------- *)
+Theorem percentile_on_isort l pn pd : percentile_on (isort l) (zlen l) pn pd = percentile l pn pd.
+Proof. reflexivity. Qed.
+
+Theorem variance_fast_eq (l : list Z) : l <> [] -> variance_fast l == variance l.
+Proof.
+  intros Hl. rewrite (variance_alt l Hl). unfold variance_fast, mean.
+  assert (Hn : ~ inject_Z (zlen l) == 0).
+  { unfold zlen. destruct l; [congruence|]. cbn [length]. unfold Qeq, inject_Z; cbn. lia. }
+  unfold Zminus. rewrite inject_Z_plus, inject_Z_opp, !inject_Z_mult. field. exact Hn.
+Qed.
